@@ -833,6 +833,8 @@ def decode_recv(kind):
         out = ["new()"]
         it = iter(script)
         alive = [True] * 3
+        if kind == "state":
+            out.append("receive futures #0,#1,#2 created requesting ids newer than %s" % [next(it, 0) % 4, next(it, 0) % 4, next(it, 0) % 4])
         for op in it:
             if op < 6:
                 i = op // 2
